@@ -9,7 +9,7 @@ from .program import Program, AnalysisError
 from .analysis import Analyzer
 from .report import Report
 
-CLAIMED = ['C01', 'C02', 'C03', 'C04', 'C06', 'C07', 'C08', 'C10', 'C11',
+CLAIMED = ['C01', 'C02', 'C03', 'C04', 'C06', 'C07', 'C08', 'C09', 'C10', 'C11',
            'C12', 'C13', 'C14', 'C15', 'C16', 'C17', 'C18', 'C19', 'C20']
 
 
